@@ -3,7 +3,7 @@
    Inv own ownd ts w: every live item's count = the client's own references + references from live
    containers + pending releases; every data block has exactly one owner; nothing dead is
    referenced.  [own] is the client's reference count per item: the documented ownership rules. *)
-From CB Require Import Word HHeap HItems HRef_proofs.
+From CB Require Import Word HHeap HItems HOps HHist HRef_proofs HCont_proofs HHist_proofs.
 Local Open Scope N_scope.
 
 (* releasing a reference the client owns never touches released memory, never releases twice, never
@@ -51,3 +51,34 @@ Theorem C04_build_int : forall refuse own ownd neg iw v w r w', Inv own ownd [] 
   build_int refuse neg iw v w = Ret r w' -> fresh_item_post own ownd w r w'.
 Proof. exact build_int_preserves. Qed.
 Print Assumptions C04_build_int.
+
+(* ---- every finite history over the public API (HHist.op: new/build of every type, push / get /
+   set / replace, map add, add chunk, tag set / get / build, copy, load, serialize, incref, decref)
+   that follows the documented ownership rules ([legal], defined in HHist_proofs.v: the client uses
+   an item only through a reference it owns, releases each reference once, keeps containers acyclic,
+   sets a tag's item once) runs without ever touching released memory, double-releasing or tripping an
+   assertion, and every item's count stays equal to the number of references the rules say exist —
+   for every allocator oracle and every nesting limit ---- *)
+Theorem C04_step : forall refuse L s own ownd w o, Inv own ownd [] w -> HCont_proofs.wf w -> caps w -> legal s own w o ->
+  exists s' out0 w', step refuse L s o w = Ret (s', out0) w' /\
+    Inv (own_after s o own s') ownd [] w' /\ HCont_proofs.wf w' /\ caps w'.
+Proof. exact HHist_proofs.C04_step. Qed.
+Print Assumptions C04_step.
+
+Theorem C04_history : forall refuse L ops, legal_history refuse L ops s0 own0 world0 ->
+  exists s' outs w', run_hist refuse L ops s0 [] world0 = Ret (s', outs) w' /\
+    Inv (own_hist refuse L ops s0 own0 world0) own0 [] w'.
+Proof. exact HHist_proofs.C04_history. Qed.
+Print Assumptions C04_history.
+
+Theorem C04_history_never_faults : forall refuse L ops k, legal_history refuse L ops s0 own0 world0 ->
+  run_hist refuse L ops s0 [] world0 <> Fault k.
+Proof. exact C04_history_no_fault. Qed.
+
+(* once the client has dropped all of its references, no memory obtained through the allocator
+   remains (acyclicity is itself preserved by rule-following histories: rules_history) *)
+Theorem C04_history_no_leak : forall refuse L ops s' outs w', rules_history refuse L ops s0 own0 world0 ->
+  run_hist refuse L ops s0 [] world0 = Ret (s', outs) w' ->
+  (forall a, own_hist refuse L ops s0 own0 world0 a = 0) -> forall a, heap w' a = None.
+Proof. exact C04_history_no_leak_acyclic. Qed.
+Print Assumptions C04_history_no_leak.
